@@ -20,13 +20,13 @@ CHECKS = {
          'premise narrowed as documented (never widened); Krylov exactness ensured by numiter>=12 with |dt|||H||<=0.5 or numiter >= local dimension'),
  'C10': ('6 C10', 'after every DMRG call of a sweep history: unit norm, state/energy consistency, variational bound against the exact sector ground energy, bound by the start energy (chained across calls), monotonicity, Hamiltonian unchanged; exact ground state on complete manifolds',
          'sector ground energy from dense diagonalisation; two-site clauses that presuppose zero split tolerance are only judged then'),
- 'C11': ('6 C11', 'call-boundary monitor on every block qr the system issues during sessions (orthonormalize, TDVP, DMRG), with QRSIGN/ULP/LAYOUT injected underneath it',
+ 'C11': ('6 C11', 'call-boundary monitor on every block qr the system issues during sessions (orthonormalize, TDVP, DMRG) and on direct kernel calls with caller-owned arrays that persist, are updated in place and passed again (also with magnitudes 2^-560 / 2^540 and charges up to 2^58), with QRSIGN/TIEORDER/ULP/LAYOUT/RAISE injected underneath it',
          'inputs are those the public in-place API produces (with d=1 the kernel sees arbitrary charge vectors chosen by the session); integer-typed input is outside the property and skipped'),
- 'C12': ('6 C12', 'call-boundary monitors on every split_matrix_svd / retained_bond_indices call issued during sessions (compress, two-site TDVP/DMRG, split_mps_tensor with the three distributions, from_vector) with SVDPHASE/SVDROT/TIEORDER/ULP injected underneath',
+ 'C12': ('6 C12', 'call-boundary monitors on every split_matrix_svd / retained_bond_indices call issued during sessions (compress, two-site TDVP/DMRG, split_mps_tensor with the three distributions, from_vector) and on direct kernel calls with persistent caller-owned arrays, with SVDPHASE/SVDROT/TIEORDER/ULP/RAISE injected underneath',
          'threshold decisions within a 1e-9 guard band of the tolerance are skipped and counted'),
  'C05': ('6 C05', 'from_opchains programs are compiled and compared exactly (Fraction coefficients, both traversal directions) with the sum of identity-padded chains; MPO.from_opgraph is applied to any graph of the pool, in particular graphs reached through rewrite histories, and compared densely under seeded charge-consistent operator maps, incl. bond charges and the node map',
          'first clause is seeded program generation only (no history or seam in it); coefficients are dyadic so that all arithmetic is exact'),
- 'C14': ('6 C14', 'Lanczos/Arnoldi driven by a simulated user callback (fresh / returns its argument / reused buffer / read-only result) on session matrices with exact invariant subspaces, plus monitors on every Lanczos call TDVP and DMRG issue; classification into regular / exhausted / grey by a re-orthogonalised reference',
+ 'C14': ('6 C14', 'Lanczos/Arnoldi driven by a simulated user callback (fresh / returns its argument / reused buffer / read-only result / memoising; persistent callback and vector updated in place between calls) on session matrices with exact invariant subspaces (n up to 96), plus monitors on every Lanczos call TDVP and DMRG issue; classification into regular / exhausted / grey by a re-orthogonalised reference',
          'maps scaled to ||A|| in [0.25, 8] (the breakdown threshold is absolute); grey-zone cases and Lanczos vectors beyond the first Ritz convergence (Paige) are skipped and counted'),
  'C15': ('6 C15', 'eigh_krylov / expm_krylov (both branches) under the same simulated callbacks and EIGSIGN/ULP faults, plus monitors on the Krylov calls of TDVP/DMRG: Ritz bounds, norm preservation, exactness once the Krylov space is exhausted',
          'same input class as C14; clauses that presuppose an orthonormal basis are not judged when the routine ran past exhaustion on a noise direction'),
@@ -34,7 +34,7 @@ CHECKS = {
          'pure history property: no environment seam applies (no LAPACK, no callbacks)'),
  'C17': ('6 C17', 'from_optrees / from_automaton programs (incl. site-dependent callables recorded by the simulator) vs the symbolic path sum, exactly; dense meaning of chains, trees and of any graph of the pool (after rewrite histories) vs the symbolic meaning under seeded operator maps',
          'first two clauses are seeded program generation only; automata without an accepting path are outside the property and skipped'),
- 'C19': ('6 C19', 'around every op of long mixed histories in both worlds: byte snapshots of every live object except the documented target; scribble test on every returned MPS/MPO/graph; write-protected operands (WPROT); injected backend failures (RAISE) inside in-place ops; shared-object identity checks for graphs',
+ 'C19': ('6 C19', 'around every op of long mixed histories in all three worlds: byte snapshots of every live object except the documented target; scribble test on every returned MPS/MPO/graph (also against argument arrays, operator maps, chain and automaton objects); write-protected operands (WPROT); injected backend failures (RAISE) inside in-place ops; user-built objects sharing tensor arrays; callback-owned arrays of memoising Krylov callbacks; shared-object identity checks for graphs',
          'literal scope: returned plain arrays/scalars are not covered by the no-sharing clause; OpGraph(nodes, edges) adopts the objects it is given by design'),
  'C20': ('6 C20', 'bond dimensions of model Hamiltonians built inside sessions vs numerical operator-Schmidt ranks of the dense model; layer widths of from_opchains graphs vs number of non-zero chains; widths across every simplify of rewrite histories',
          'clause 1 is seeded parameter generation with an independent numerical oracle (clean rank gap required, else skipped)'),
@@ -76,7 +76,7 @@ def main():
                      'kind_free_text': 'deterministic simulation with environment-fault injection: seeded sessions of public-API operation histories, reference models, call-boundary monitors, ddmin shrinking, JSON replay'}],
         'checks': checks,
         'not_applicable': na,
-        'notes': 'VERIF_SEED / --seed selects the batch; VERIF_BUDGET_S bounds the thorough tier (default 600 s); PYTENET_SRC overrides the source tree (sensitivity runs only). fix: commits in /repo: see known_findings.json.',
+        'notes': 'Sensitivity: 194 independently seeded changes under /verif/seeded (reports/seeded_matrix.md, DESIGN 11.4). VERIF_SEED / --seed selects the batch; VERIF_BUDGET_S bounds the thorough tier (default 600 s); PYTENET_SRC overrides the source tree (sensitivity runs only). fix: commits in /repo: see known_findings.json.',
     }
     with open(os.path.join(os.path.dirname(os.path.dirname(os.path.abspath(__file__))), 'MANIFEST.json'), 'w') as f:
         json.dump(man, f, indent=1)
